@@ -38,7 +38,7 @@ def plant(seed, i):
            expected: 'refuse' | 'remove')"""
     rng = np.random.default_rng([seed, i, 2020])
     kind = ["few-constraints", "non-spanning", "disconnected", "single-element", "single-direction-point",
-            "combo", "random-sub-survey"][i % 7]
+            "combo", "random-sub-survey", "dangling-station"][i % 8]
     if kind == "random-sub-survey":
         # an error-free survey with ~45 % of its observations dropped at random and no approximate coordinates for
         # the unknown points: possibly determined, possibly not -- whatever it is, the four algorithms must agree
@@ -99,6 +99,25 @@ def plant(seed, i):
         good.clusters += loose.clusters
         good.kind += "+loose"
         return kind, good, clean, ids, "remove"
+    if kind == "dangling-station":
+        # a stand-point that sights two points of the network and that nobody observes: two directions for three
+        # unknowns (x, y, orientation) -- it can slide along a circle.  In a free network the constraints on the other
+        # points cannot resolve that, in a fixed one nothing has to
+        datum = str(rng.choice(["fixed", "free", "free"]))
+        net = netgen.gen_net(rng, dim=2, datum=datum, noise=True)
+        clean = net.clone()
+        tg = [str(x) for x in rng.choice(list(net.points), 2, replace=False)]
+        net.points["S1"] = netgen.Pt("S1", float(rng.uniform(-300, 300)), float(rng.uniform(-300, 300)), 0.0, "free", "none")
+        st = netgen.Cluster("obs", "S1")
+        st.zero = float(rng.uniform(0, 400))
+        for t in tg:
+            o = netgen.Obs("direction", "S1", t, stdev=10.0)
+            st.obs.append(o)
+        net.clusters.append(st)
+        for o in st.obs:
+            o.true = netgen.model_value(net, st, o); o.val = o.true
+        net.kind += "+dangling"
+        return kind + "-" + datum, net, clean, {"S1"}, "remove"
     if kind in ("single-element", "single-direction-point", "combo"):
         net = netgen.gen_net(rng, dim=2, datum=str(rng.choice(["fixed", "mixed"])), noise=True)
         clean = net.clone()
@@ -136,10 +155,11 @@ def run(tier, seed, only=None):
     ck = Check("C20", tier, seed,
                "generated networks with planted rank deficiencies {too few constrained coordinates, constraints that do "
                "not span the defect (no height constrained in 3D), disconnected free part next to a fixed network, "
-               "points with a single determining element (one distance / one direction), combinations, random sub-surveys "
+               "points with a single determining element (one distance / one direction), a stand-point with two directions that "
+               "nobody observes (fixed and free networks), combinations, random sub-surveys "
                "without approximate coordinates} x 4 algorithms; "
                "class = (planted kind, network kind, algorithm, outcome)")
-    n = tier_n(tier, 48, 1200)
+    n = tier_n(tier, 192, 1200)
     fr = netgen.Frame()
     items = []
     for i in range(n):
@@ -220,7 +240,7 @@ def run(tier, seed, only=None):
                     elif cl is not None and cl.xml is not None and cl.xml["kind"] == "adjustment" and not wrong:
                         A = netlevel.physical_result(cl.xml, fr)
                         B = netlevel.physical_result(g.xml, fr)
-                        bad = netlevel.compare_physical(A, B, rel=2e-4, what=("points", "obs", "stats"))
+                        bad = netlevel.compare_physical(A, B, rel=netlevel.rel_between_linearisation_points(net), what=("points", "obs", "stats"))
                         corr = netlevel.correlated_obs_keys(net)
                         for key, msg, okey in bad[:2]:
                             if okey is not None and okey in corr and key.split(":")[1] in ("stdev", "qrr", "f"):
